@@ -628,7 +628,7 @@ func runChild(root string, spec searchSpec, fresh bool) (*runObs, error) {
 	}
 	// wait for Done by watching <id>.info from this (untraced) process: polling FetchSearchResult in the
 	// child would open and close descriptors concurrently with the protocol's own system calls
-	waitDone(root+"/async/"+spec.ID+".info", 20*time.Second, st)
+	waitDone(root+"/async/"+spec.ID+".info", 8*time.Second, st)
 	if o.fetch, err = call(st, "c19.fetch", childReq{Spec: spec}); err != nil {
 		return nil, fmt.Errorf("fetch: %w", err)
 	}
